@@ -20,7 +20,6 @@ PENDING = 'not claimed yet in this revision: the contracts for this property are
 NOT_APPLICABLE = {
     'C03': 'quantifies over thread schedules and pairs of executions (2-safety); no pre/postcondition expresses it; Kani has no threads (DESIGN.md section 6)',
     'C06': 'frequency-domain approximation-error statement about an IIR filter with exp/cos; no float semantics in Verus, CBMC libm models are non-deterministic (DESIGN.md section 6)',
-    'C13': 'same as C06 plus powf and a stability claim (DESIGN.md section 6)',
 }
 
 
@@ -39,9 +38,9 @@ PROPS = {
         'not_decided': [],
     },
     'C09': {
-        'technique': 'Verus contracts on the extracted text of DurationEstimator::{create_with_alignment, estimate_duration_with_frame_length} and Labels::new; Kani-checked hole contracts and float lemma L3',
+        'technique': 'Verus contracts on the extracted text of DurationEstimator::{create_with_alignment, estimate_duration_with_frame_length} and Labels::new; Kani-checked hole contracts and float lemma L3; modular Kani harnesses on the real create_with_alignment with the fit replaced by its Verus-proved contract',
         'level_text': 'unbounded deductive proof (Verus/z3) that every known-end label closes a group fitted to (end - frames so far), every state gets >= 1 frame, all labels contribute all states and trailing labels fall back to model durations; round() identity (L3) by a loop-free Kani lemma',
-        'level_note': 'holes (iterator chains, casts) abstracted by contracts that Kani checks on fixed sizes N<=3 (bounded); usize overflow of frame sums excluded by precondition; float operations uninterpreted in Verus',
+        'level_note': 'holes (iterator chains, casts) abstracted by contracts that Kani checks on fixed sizes N<=3 (bounded); usize overflow of frame sums excluded by precondition; float operations uninterpreted in Verus; API-level counterparts (K-dur-mod) are bounded: concrete end times with a symbolic split inside each fitted group',
         'verus': ['duration', 'labels', 'engine'],
         'assumptions': ['sums_fit / al_fc <= usize::MAX: machine-integer overflow of frame totals excluded by precondition',
                         'axiom_vec_len_bound: a Vec length is a usize'],
@@ -49,7 +48,7 @@ PROPS = {
         'not_decided': [],
     },
     'C08': {
-        'technique': 'Verus contracts on the extracted text of DurationEstimator::{create, estimate_duration_with_frame_length}; Kani float lemmas L1, L2 and hole contracts',
+        'technique': 'Verus contracts on the extracted text of DurationEstimator::{create, estimate_duration_with_frame_length}; Kani float lemmas L1, L2 and hole contracts; modular Kani harness on the real create with the fit replaced by its Verus-proved contract; bounded run of the real fit on repeated-shrink cases',
         'level_text': 'unbounded deductive proof (Verus/z3) of totals and floors for every parameter sequence and speed; per-element rounding facts by loop-free Kani lemmas over all f64',
         'level_note': 'monotonicity in speed rests on the ASSUMED monotonicity of IEEE division (L4 not discharged); holes bounded N<=3; overflow of the frame total excluded by precondition',
         'verus': ['duration'],
@@ -73,21 +72,21 @@ PROPS = {
         'trusted_base': [], 'not_decided': [],
     },
     'C10': {
-        'technique': 'Verus contracts on the extracted text of ModelParameter::{mul, mul_add_assign} (IEEE ops uninterpreted); Kani harnesses on VoiceSet::weighted over symbolic parameters with exact-scaling weight constants',
+        'technique': 'Verus contracts on the extracted text of ModelParameter::{mul, mul_add_assign} (IEEE ops uninterpreted); Kani harnesses on the real body of VoiceSet::weighted (cut from the tree every run, shim receiver) and on mul / mul_add_assign with exact-scaling weight constants',
         'level_text': 'unbounded proof (any weight, any vector length) that one accumulation step yields exactly lhs + weight*rhs per mean/variance/msd component and that mul scales every component; Kani (bit-precise, all parameter values): weights (1,0) return the first parameter set unchanged, (.5,.5) gives p0*.5 + .5*p1, msd presence follows the first voice',
-        'level_note': 'PARTIAL: VoiceSet::weighted itself (iterators held in variables: outside Verus; two Arc<Voice> exhaust 12 GB under CBMC) is NOT decided, i.e. that the fold pairs voice v with weight v in order; which weight vector feeds which quantity in Models is not decided; floats are uninterpreted in Verus (no rounding claims)',
+        'level_note': 'PARTIAL: the fold of VoiceSet::weighted (voice v paired with weight v, in order, any sign) is checked bounded only: its real body under a shim receiver, 2 voices (3 in the thorough tier), concrete values; which weight vector feeds which quantity in Models is not decided (flat_map chains exhaust CBMC even in a shim environment); floats are uninterpreted in Verus (no rounding claims)',
         'verus': ['interp'],
         'assumptions': [], 'trusted_base': [],
-        'not_decided': ['VoiceSet::weighted: pairing of voices and weights in the fold', 'which weight vector feeds which quantity (Models::duration/stream/gv)', '"up to rounding" for identical voices with arbitrary weights'],
+        'not_decided': ['VoiceSet::weighted beyond 3 voices / for symbolic values', 'which weight vector feeds which quantity (Models::duration/stream/gv)', '"up to rounding" for identical voices with arbitrary weights'],
     },
     'C17': {
-        'technique': 'Verus contracts on the extracted text of Labels::new and Engine::generator',
+        'technique': 'Verus contracts on the extracted text of Labels::new, the four ToLabels impls and Engine::generator; Kani harnesses on the real body of Labels::load_from_strings (cut from the tree every run) over an abstraction of the string layer',
         'level_text': 'unbounded proof that labels given without times get (-1,-1) for every label, that length mismatch is the only error of Labels::new, that the array and owned-vector input forms are exactly the slice form on the same lines (at the condition\'s sampling rate and frame period), and that with alignment off the time stamps do not occur in what generator() builds',
-        'level_note': 'PARTIAL: load_from_strings itself (line splitting, blank-line skip, parsers, error mapping) is not under contract; jlabel and f64 parsers are outside any verifier; unit forms runs with --no-trait-conflicts (Verus internal error on AsRef)',
+        'level_note': 'PARTIAL: the control flow of load_from_strings (one / two / three tokens, blank-line skip, error mapping, time scaling by sampling_rate / (fperiod * 1e7), line order) is checked bounded (<= 3 lines) on its real body with str::splitn / str::parse / jlabel replaced by a pre-tokenised shim; how a line splits into tokens and how a token parses (core, jlabel) are outside any verifier; unit forms runs with --no-trait-conflicts (Verus internal error on AsRef)',
         'verus': ['labels', 'engine', 'forms'],
         'assumptions': ['axiom_pair_clone: Clone of (f64, f64) returns an equal pair'],
         'trusted_base': [],
-        'not_decided': ['Labels::load_from_strings control flow and error mapping', 'jlabel::Label::from_str / f64::from_str never panic'],
+        'not_decided': ['str::splitn / f64::from_str / jlabel::Label::from_str: tokenisation and parsing themselves, panic-freedom included', 'load_from_strings beyond 3 lines'],
     },
     'C04': {
         'technique': 'Verus contracts on the extracted text of Tree::search_node, Model::{get_index,get_parameter}, ModelParameter::from_linear; Kani harnesses for find_tree_index and PDF row split',
@@ -109,6 +108,14 @@ PROPS = {
         'trusted_base': [],
         'not_decided': ['whole-file quantifier (any byte sequence)', 'allocation bounds', 'pdf_len arithmetic overflow in parse_data_section', 'deserialize_hashmap key slicing'],
     },
+    'C13': {
+        'technique': 'Verus contracts on the extracted text of LineSpectralPairs::{lsp2lpc, lsp2mgc} (IEEE ops, cos, exp uninterpreted); the two iterator-chain holes checked by Kani',
+        'level_text': 'unbounded proof (any order, even or odd) of the mechanism-level clauses of the property: the LPC polynomial is built from the line spectral frequencies w_1..w_m that FOLLOW the gain entry (cosine tables from the odd- and even-numbered frequencies), has m + 1 coefficients with a_0 = 1, the gain (or exp of the log gain) replaces a_0, the conversion to MGC is of order m, and neither function panics on a vector holding at least the gain',
+        'level_note': 'PARTIAL, mechanism level only: that the pulse response has magnitude K / |A(e^jw)|^s within 0.001 neper, and stability, are NOT decided (frequency-domain statement about an IIR filter; no float semantics in Verus, libm not modelled by CBMC); the recursion that multiplies out the LSP factors is proved panic-free but its value is not specified; mglsa.rs, gc2gc, gnorm / ignorm, freqt are outside this check',
+        'verus': ['lsp'],
+        'assumptions': ['axiom_vec_len_bound: a Vec length is a usize'], 'trusted_base': [],
+        'not_decided': ['magnitude response K / |A|^s within 0.001 neper', 'decaying finite response for well-separated frequencies (check_lsp_stability, MGLSA filter)', 'value of the LSP -> LPC recursion (only which inputs it consumes, its shape and panic-freedom)', 'gc2gc / gnorm / ignorm / mgc2mgc numerics'],
+    },
     'C15': {
         'technique': 'Verus contracts on the extracted text of StreamParameter::apply_additional_half_tone and Engine::generator; Kani harnesses pin the float values',
         'level_text': 'unbounded proof (any number of states and windows) that only the static log-F0 mean of each state changes, to clamp(mean + h*HALF_TONE, MIN_LF0, MAX_LF0), that h = 0 is the identity, and that the shift is applied to stream 1 only, before MLPG, reaching neither durations nor the other streams; Kani: the same on 2 states x 2 windows bit-precisely',
@@ -129,11 +136,11 @@ PROPS = {
     },
     'C05': {
         'technique': 'Verus contract on the extracted text of Mask::boundary_distances; Kani harnesses on Mask::{create,fill} and MlpgAdjust::create (argument capture by stubbing calc_wuw_and_wum)',
-        'level_text': 'unbounded proof of the boundary distances (voiced run lengths to the nearest unvoiced frame or edge) for any number of frames; bounded: frame -> state expansion, unvoiced frames carry NODATA, dynamic windows at an edge get zero precision',
+        'level_text': 'unbounded proof of the boundary distances (voiced run lengths to the nearest unvoiced frame or edge) for any number of frames; bounded: frame -> state expansion, unvoiced frames carry NODATA, dynamic windows whose span touches an utterance edge or an unvoiced frame get zero precision (width-3 and width-5 windows)',
         'level_note': 'PARTIAL: that calc_wuw_and_wum accumulates W\'U^-1W and that LDL + substitutions solve the normal equations to rounding accuracy is NOT decided (real-number linear algebra; no float semantics in Verus, symbolic products intractable in CBMC)',
         'verus': ['mask', 'window'],
         'assumptions': [], 'trusted_base': [],
-        'not_decided': ['maximum-likelihood optimality: W\'U^-1W c = W\'U^-1 mu to rounding accuracy', 'zero-precision rule next to unvoiced frames (only the utterance-edge case is checked)'],
+        'not_decided': ['maximum-likelihood optimality: W\'U^-1W c = W\'U^-1 mu to rounding accuracy'],
     },
     'C07': {
         'technique': 'Kani loop-free harnesses on Excitation::{start,get,end}, Random::rnd, Mseq::next; Verus contracts on the extracted text of RingBuffer and Excitation::{voiced_frame, unvoiced_frame}',
@@ -152,12 +159,12 @@ PROPS = {
         'not_decided': ['variance within 20% of gv_weight x GV mean', 'monotone growth with the weight', 'Models::gv switch from gv_off_context', 'numerics of conv_gv / calc_gv / next_step (which frames they rescale)', 'step-size schedule of parmgen'],
     },
     'C14': {
-        'technique': 'Verus contract on the extracted text of MelCepstrum::postfilter_mcp (b-domain, floats and mc2b/b2mc/b2en uninterpreted) and on Engine::generator; Kani harnesses for the no-op cases; native contract on Condition::set_beta',
+        'technique': 'Verus contracts on the extracted text of MelCepstrum::postfilter_mcp (b-domain, floats and b2en uninterpreted), CepstrumT::{mc2b, freqt}, CoefficientsT::b2mc and Engine::generator; Kani harnesses for the no-op cases; native contract on Condition::set_beta',
         'level_text': 'unbounded proof (any order) of the b-domain update: b_k (k>=2) x (1+beta), b_1 - beta*alpha*b_2, b_0 + ln(e1/e2)/2, converted back with b2mc, and of the no-op cases; ring-identity lemma giving c_1 unchanged and c_k x (1+beta); Kani: no-op cases bit-identical for symbolic values; beta is clamped to [0,1] and reaches only Vocoder::new',
-        'level_note': 'PARTIAL: mc2b, b2mc and b2en are uninterpreted in unit postfilter; of the energy computation (b2mc -> freqt -> c2ir -> sum of squares) only freqt is under contract (unit freqt: the recursion consumes the coefficients from the highest order down, state update as in SPTK); c2ir and the 1% tolerance are NOT decided; the c-domain statement holds in exact arithmetic (lemma over the integers)',
-        'verus': ['engine', 'postfilter', 'freqt'],
+        'level_note': 'PARTIAL: unit postfilter uses mc2b / b2mc / b2en as named functions; unit mc2b proves that the real mc2b and b2mc are the recursions b_i = c_i - alpha b_{i+1} and c_i = b_i + alpha b_{i+1} (any order, IEEE ops uninterpreted); of the energy computation (b2mc -> freqt -> c2ir -> sum of squares) only freqt is under contract (unit freqt: the recursion consumes the coefficients from the highest order down, state update as in SPTK); c2ir and the 1% tolerance are NOT decided; the c-domain statement holds in exact arithmetic (lemma over the integers)',
+        'verus': ['engine', 'postfilter', 'freqt', 'mc2b'],
         'assumptions': [], 'trusted_base': [],
-        'not_decided': ['impulse-response energy preserved within 1% (c2ir, truncation to 576 taps, rounding)', 'mc2b / b2mc are the linear maps c <-> b'],
+        'not_decided': ['impulse-response energy preserved within 1% (c2ir, truncation to 576 taps, rounding)'],
     },
     'C16': {
         'technique': 'Kani frame harness on Condition::set_volume (exp stubbed as an uninterpreted function) + Verus contract on Engine::generator',
